@@ -108,7 +108,7 @@ class HistGen:
         self.hi_slot = {}
 
     def addr(self, a, allow_both=True):
-        k = self.r.weighted([("n", 5), ("k", 4), ("b", 1 if allow_both else 0)])
+        k = self.r.weighted([("n", 5), ("k", 4), ("b", 2 if allow_both else 0)])
         if k == "n":
             return "n:" + hx(a.path)
         if k == "k":
@@ -117,7 +117,9 @@ class HistGen:
             if not self.opts.get("clean") and self.r.chance(0.10):
                 extra = self.r.choice(["00", "ff", "0102", "00" * 16])
             return "k:" + a.pk.hex() + extra
-        return "b:%s:%s" % (hx(a.path), a.pk.hex())
+        # name and key together; half of the time they name DIFFERENT accounts (the key is what resolves)
+        other = self.r.choice(self.accts) if self.r.chance(0.5) else a
+        return "b:%s:%s" % (hx(other.path), a.pk.hex())
 
     def epoch_pair(self, a):
         r = self.r
